@@ -28,6 +28,8 @@ def run(check: Check, repo: Repo, tier: str) -> None:
     L.lex_tables(check, repo)
     check.floor("LEX-TABLES", 20, "table entries / predicates")
     L.token_count(check, repo)
+    L.strip_always_lexes(check, repo)
+    L.hex_digit_table(check, repo)
     L.number_lookahead(check, repo)
     lt_agree.check_lt_agree(check, repo, scope=SCOPE)
     check.floor("LT-AGREE", 2, "line-splitting constructs")
